@@ -25,6 +25,57 @@ binding:   (a) every CASE line of both closed configurations (input AND expected
                after its first parse result was changed; the parsed document of the previous case is
                kept alive and looked at again after the current case; the codec is called twice on the
                same list with the returned list changed by the caller in between
+API surface (notes/API_SURFACE.md).  The same verdicts apply whichever entry point is used; the primary
+ones are used by the canonical concretization of every TLC case, the others are rotated (seeded `vseed`,
+stored in replay files) over every other execution of the replay leg and 75 % of the recorded traces, mixed
+within one history (paragraphs of one document built through different variants, the three parses and the
+dumps of one execution through different forms, queries through different iterators).  Counts per
+variant: evidence per_action_counts "parse:*", "dump:*", "(api) *".
+  entry point / variant                                             exercised by
+  ----------------------------------------------------------------  ------------------------------------------
+  Copyright()                                                       replay, trace (every execution)
+  Copyright(sequence) list of lines with / without newlines, tuple  parse forms lines, lines-nonl, tuple
+  Copyright(sequence) one str / one UTF-8 bytes object              parse forms str, bytes-str
+  Copyright(sequence) iterator / generator                          parse forms iter, gen
+  Copyright(sequence) text file object (StringIO, file on disk)     parse forms file, disk-text
+  Copyright(sequence) byte lines / BytesIO / binary file + encoding parse forms bytes, bytesio, disk-bin; latin1
+                                                                    (encoding='latin-1' when the text allows)
+  Copyright(lines, 'utf-8', True) / (sequence=, encoding=, strict=) parse forms positional, keyword
+  Copyright(..., strict=False) on a valid document                  parse form nonstrict (same result, no warning)
+  CRLF line ends                                                    parse form crlf
+  NotMachineReadableError / MachineReadableFormatError path         trace kind "reject": 9 texts x 15 strict input
+                                                                    forms, exception class = TLC's Load(text).err
+  deprecated header field Format-Specification                      trace / replay, start "parsed" (25 % of rotated):
+                                                                    warned about, rewritten; then same verdicts
+  add_files_paragraph / add_license_paragraph                       start "api"; edits "add" on the re-parsed document
+  all_paragraphs / iter(copyright) / all_files_paragraphs /         observe_doc: rotated for reading, and always
+    all_license_paragraphs                                          cross-checked (same objects, same order)
+  find_files_paragraph (matches, files_pattern)                     40 % of rotated executions: the document and its
+                                                                    re-parsed dump answer alike (right answer: C16)
+  FilesParagraph.create / LicenseParagraph.create positional        primary
+  ... keyword arguments; create + files/copyright/license setters   build variants kw, setters
+  FilesParagraph(Deb822) / LicenseParagraph(Deb822) constructors    build variant ctor (over Deb822(str) / Deb822(lines))
+  files / copyright / license getters and setters                   every execution; setters: edits, scribble
+  comment getter / setter, custom fields p[k] = v, p[k], iter, len  paragraph "extra" fields (spec: extra), read through
+                                                                    iteration + item access and compared with the getter
+  Header(): format, upstream_name, upstream_contact, license        header kinds of the spec; every execution
+  Header: source, disclaimer, comment, copyright, custom fields,    spec: header extra / fe / fi (kind "full"; random in
+    files_excluded, files_included, known_format, current_format    traces)
+  Header(Deb822) constructor + Copyright.header setter              30 % of rotated executions
+  License(s, t) / (synopsis=, text=) / License(s) / License(s,      rotated at construction; _replace; read through
+    None) / _replace; attributes, indexes, unpacking                attributes / indexes / unpacking
+  License.to_str / License.from_str (also from_str(None))           every execution: from_str(to_str()) = License (spec:
+                                                                    LicLaw), besides the field converters
+  format_multiline_lines / parse_multiline_as_lines (positional,    codec cases and codec traces
+    keyword)
+  format_multiline / parse_multiline (string variants, None)        codec cases (sdom) and traces (spec: CodecStrLaw)
+  Copyright.dump() / dump(f=text file) / dump(f) / file on disk     dump forms str, file, file-pos, disk
+  paragraph.dump() / dump(fd, text_mode=True) / dump(binary fd) /   assembling the text of start "parsed", Deb822 data of
+    dump(fd=, encoding=) of FilesParagraph, LicenseParagraph, Header  the ctor variants
+  out of domain: RestrictedFieldError on p['Files'] = ... (not a way to build a document), TypeError of add_* for a
+  wrong type, header format setter (a document in another format is not in the statement), globs_to_re (C16),
+  function_deprecated_by aliases (the module has none), pickle / copy (not documented for these classes).
+
 verdict observables (DESIGN 5, C17): the strict re-parse of dump() raises nothing and logs no warning;
            paragraph kinds and order, files, copyright, license synopsis and text, header fields
            equal to what the document was built from; the second dump() equals the first;
@@ -87,8 +138,12 @@ CONTACT_POOL = ["Jane Doe <jane@example.org>", "https://example.org/contact", "J
                 "The Team <team@lists.example.org>", ".dot", "#hash"]
 WS1 = [" ", " ", " ", "\t"]
 WS2 = ["  ", "  ", " \t", "\t ", "\t\t"]
-CANON = {1: "glob%d", 2: "2014 Holder %d", 3: "LIC-%d", 4: "text line %d", 5: "name%d", 6: "Contact %d <c%d@example.org>"}
-POOLS = {1: PAT_POOL, 2: COPY_POOL, 3: SYN_POOL, 4: TEXT_POOL, 5: NAME_POOL, 6: CONTACT_POOL}
+SOURCE_POOL = ["https://example.org/src", "git://example.org/x.git", "ftp://ftp.example.org/pub/x-1.0.tar.gz", "x", "see README"]
+CANON = {1: "glob%d", 2: "2014 Holder %d", 3: "LIC-%d", 4: "text line %d", 5: "name%d", 6: "Contact %d <c%d@example.org>",
+         7: "comment %d", 8: "excluded-%d/*", 9: "https://example.org/%d"}
+# 7: lines of a Comment (raw value), 8: entries of Files-Excluded / Files-Included, 9: Source / custom single lines
+POOLS = {1: PAT_POOL, 2: COPY_POOL, 3: SYN_POOL, 4: TEXT_POOL, 5: NAME_POOL, 6: CONTACT_POOL, 7: COPY_POOL, 8: PAT_POOL,
+         9: SOURCE_POOL}
 
 # ---- character / encoding stress (notes/SIZE_STRESS.md part 2); comparisons are by code point, never normalised
 # one character per UTF-8 TRAILING byte 0x80..0xBF, in 2-, 2-, 3- and 4-byte encodings (code point = i mod 64)
@@ -155,7 +210,7 @@ for _c in [c for t in TRAIL for c in t] + LEADS:
     assert not _c.isspace() and _c not in D1_CHARS, repr(_c)
 assert sorted({c.encode("utf-8")[-1] for t in TRAIL for c in t}) == list(range(0x80, 0xC0))
 assert {c.encode("utf-8")[0] for c in LEADS} >= set(range(0xC2, 0xF5))
-for _pool in (TEXT_POOL, COPY_POOL, SYN_POOL, PAT_POOL, NAME_POOL, CONTACT_POOL):
+for _pool in (TEXT_POOL, COPY_POOL, SYN_POOL, PAT_POOL, NAME_POOL, CONTACT_POOL, SOURCE_POOL):
     for _s in _pool:
         assert _s and _s == _s.strip() and _s != "." and not any(c in _s for c in D1_CHARS), _s
 for _s in PAT_POOL:
@@ -270,7 +325,9 @@ class Conc:
             if self.stress:
                 if part == 1:
                     return spice(self.rng, sized_pattern(self.rng, size_len(self.rng)))
-                return spice(self.rng, sized_text(self.rng, size_len(self.rng, 257 if part in (5, 6) else 4097)))
+                if part == 8:
+                    return spice(self.rng, sized_pattern(self.rng, size_len(self.rng, 129)))
+                return spice(self.rng, sized_text(self.rng, size_len(self.rng, 257 if part in (5, 6, 9) else 4097)))
             return spice(self.rng, self.rng.choice(TEXT_EDGE_POOL if part == 4 else POOLS[part]))
         return self.get("b:%d" % code, make)
 
@@ -340,15 +397,19 @@ def exc_name(e):
     return type(e).__name__
 
 
-def exec_codec(lines):
+def exec_codec(lines, vr=None):
     """format_multiline_lines -> parse_multiline_as_lines on one list of lines, then the same calls
-    again after the caller has changed the list the first call returned (no state between calls)"""
+    again after the caller has changed the list the first call returned (no state between calls), then
+    the string variants format_multiline / parse_multiline on '\n'.join(lines); `vr` (a Random) rotates
+    positional / keyword calls"""
     from debian import copyright as C
-    o = {"enc": None, "out": None, "exc": "", "msg": "", "out2": None, "out3": None, "kept": True}
+    o = {"enc": None, "out": None, "exc": "", "msg": "", "out2": None, "out3": None, "kept": True,
+         "sout": None, "ssame": True}
     arg = list(lines)
+    kw = vr is not None and vr.random() < 0.3
     try:
-        o["enc"] = C.format_multiline_lines(arg)
-        res = C.parse_multiline_as_lines(o["enc"])
+        o["enc"] = C.format_multiline_lines(lines=arg) if kw else C.format_multiline_lines(arg)
+        res = C.parse_multiline_as_lines(s=o["enc"]) if kw else C.parse_multiline_as_lines(o["enc"])
         if not isinstance(res, list) or not all(isinstance(x, str) for x in res):
             o["exc"], o["msg"] = "BadResult", repr(res)[:200]
             return o
@@ -360,6 +421,13 @@ def exec_codec(lines):
         o["out2"] = list(C.parse_multiline_as_lines(enc2))
         o["out3"] = list(C.parse_multiline_as_lines(o["enc"]))
         o["kept"] = arg == list(lines) and enc2 == o["enc"]
+        # string variants (None passes through)
+        text = "\n".join(lines)
+        senc = C.format_multiline(s=text) if kw else C.format_multiline(text)
+        o["sout"] = C.parse_multiline(senc)
+        o["ssame"] = (senc == o["enc"]) and C.format_multiline(None) is None and C.parse_multiline(None) is None
+        if not isinstance(o["sout"], str):
+            o["exc"], o["msg"] = "BadResult", "parse_multiline returned %r" % (o["sout"],)
     except Exception as e:           # an exception of the code under test is an observation
         o["exc"], o["msg"] = exc_name(e), str(e)[:200]
     return o
@@ -375,10 +443,23 @@ def _shared_reset(C):
         _SHARED["repo"], _SHARED["lic"], _SHARED["pats"] = C, {}, {}
 
 
-def _mk_lic(C, syn, text):
+def _mk_lic(C, syn, text, vr=None):
+    """a (shared) License object, constructed positionally / by keyword / with the default or None text /
+    through _replace"""
     key = (syn, text)
     if key not in _SHARED["lic"]:
-        _SHARED["lic"][key] = C.License(syn, text)
+        v = vr.choice(["pos", "pos", "kw", "short", "none", "replace"]) if vr is not None else "pos"
+        if v == "kw":
+            lic = C.License(synopsis=syn, text=text)
+        elif v == "short" and text == "":
+            lic = C.License(syn)
+        elif v == "none" and text == "":
+            lic = C.License(syn, None)               # "text: The full text of the license, if any (may be None)"
+        elif v == "replace":
+            lic = C.License("tmp", "tmp")._replace(synopsis=syn, text=text)
+        else:
+            lic = C.License(syn, text)
+        _SHARED["lic"][key] = lic
     return _SHARED["lic"][key]
 
 
@@ -389,39 +470,224 @@ def _mk_pats(pats):
     return _SHARED["pats"][key]
 
 
-def _mk_para(C, op):
-    lic = _mk_lic(C, op["syn"], op["text"])
+def _set_extra(p, extra, header=False):
+    for k, v in extra or ():
+        attr = {"Comment": "comment", "Source": "source", "Disclaimer": "disclaimer", "Copyright": "copyright"}.get(k)
+        if attr and (header or k == "Comment"):
+            setattr(p, attr, v)               # the RestrictedField property
+        else:
+            p[k] = v                          # RestrictedWrapper.__setitem__ (custom field)
+
+
+def _mk_para(C, op, vr=None):
+    """FilesParagraph / LicenseParagraph through create (positional / keyword), through create + setters, or
+    through the constructor over a Deb822 object"""
+    from debian import deb822
+    lic = _mk_lic(C, op["syn"], op["text"], vr)
+    v = vr.choice(["pos", "pos", "kw", "setters", "ctor"]) if vr is not None else "pos"
     if op["kind"] == "Files":
         pats = _mk_pats(op["pats"])
-        p = C.FilesParagraph.create(pats, op["copy"], lic)
+        if v == "kw":
+            p = C.FilesParagraph.create(files=pats, copyright=op["copy"], license=lic)
+        elif v == "setters":
+            p = C.FilesParagraph.create(["placeholder"], "placeholder", C.License("PLACEHOLDER", "placeholder\n text"))
+            p.license = lic
+            p.files = pats
+            p.copyright = op["copy"]
+        else:
+            p = C.FilesParagraph.create(pats, op["copy"], lic)
         if pats != list(op["pats"]):
             raise AssertionError("FilesParagraph.create changed the list of patterns it was given")
-        return p
-    return C.LicenseParagraph.create(lic)
+    else:
+        if v == "kw":
+            p = C.LicenseParagraph.create(license=lic)
+        elif v == "setters":
+            p = C.LicenseParagraph.create(C.License("PLACEHOLDER", "placeholder"))
+            p.license = lic
+        else:
+            p = C.LicenseParagraph.create(lic)
+    _set_extra(p, op.get("extra"))
+    if v == "ctor":
+        data = deb822.Deb822(p.dump() if vr.random() < 0.5 else p.dump().splitlines())
+        p = C.FilesParagraph(data) if op["kind"] == "Files" else C.LicenseParagraph(data)
+    return p
 
 
-def observe_doc(C, c):
-    """projection of a Copyright object: (header dict, list of paragraph dicts)"""
+def _para_text(p, vr):
+    """the text of one paragraph through the dump variants of RestrictedWrapper"""
+    v = vr.choice(["str", "str", "text-fd", "bytes-fd", "bytes-enc"]) if vr is not None else "str"
+    if v == "text-fd":
+        f = io.StringIO()
+        p.dump(f, text_mode=True)
+        return f.getvalue()
+    if v == "bytes-fd":
+        f = io.BytesIO()
+        p.dump(f)
+        return f.getvalue().decode("utf-8")
+    if v == "bytes-enc":
+        f = io.BytesIO()
+        p.dump(fd=f, encoding="utf-8")
+        return f.getvalue().decode("utf-8")
+    return p.dump()
+
+
+_SCRATCH = {"dir": None, "n": 0}
+PARSE_FORMS = ["lines", "lines-nonl", "str", "bytes-str", "bytes", "iter", "gen", "tuple", "file", "bytesio", "disk-text",
+               "disk-bin", "positional", "keyword", "nonstrict", "crlf", "latin1"]
+DUMP_FORMS = ["str", "file", "file-pos", "disk"]
+
+
+def _scratch_file():
+    _SCRATCH["n"] += 1
+    return os.path.join(_SCRATCH["dir"], "c17-%d-%d.copyright" % (os.getpid(), _SCRATCH["n"]))
+
+
+def parse_doc(C, text, form):
+    """Copyright(...) over every documented input form"""
+    lines = text.splitlines(True)
+    if form == "latin1":
+        try:
+            return C.Copyright(text.encode("latin-1").splitlines(True), encoding="latin-1", strict=True)
+        except UnicodeEncodeError:
+            form = "bytes"
+    if form in ("disk-text", "disk-bin") and _SCRATCH["dir"] is None:
+        form = "file"
+    if form == "lines":
+        return C.Copyright(lines, strict=True)
+    if form == "lines-nonl":
+        return C.Copyright(text.split("\n")[:-1] if text.endswith("\n") else text.split("\n"), strict=True)
+    if form == "str":
+        return C.Copyright(text)
+    if form == "bytes-str":
+        return C.Copyright(text.encode("utf-8"), "utf-8")
+    if form == "bytes":          # "encoding: Encoding to use, in case input is raw byte strings"
+        return C.Copyright(text.encode("utf-8").splitlines(True), encoding="utf-8", strict=True)
+    if form == "iter":
+        return C.Copyright(iter(lines), strict=True)
+    if form == "gen":
+        return C.Copyright((x for x in lines), strict=True)
+    if form == "tuple":
+        return C.Copyright(tuple(lines), strict=True)
+    if form == "file":
+        return C.Copyright(io.StringIO(text), strict=True)
+    if form == "bytesio":
+        return C.Copyright(io.BytesIO(text.encode("utf-8")), encoding="utf-8")
+    if form in ("disk-text", "disk-bin"):
+        path = _scratch_file()
+        with io.open(path, "w", encoding="utf-8", newline="\n") as f:
+            f.write(text)
+        try:
+            with (io.open(path, "rt", encoding="utf-8", newline="\n") if form == "disk-text" else open(path, "rb")) as f:
+                return C.Copyright(f, strict=True)
+        finally:
+            os.unlink(path)
+    if form == "positional":
+        return C.Copyright(lines, "utf-8", True)
+    if form == "keyword":
+        return C.Copyright(sequence=lines, encoding="utf-8", strict=True)
+    if form == "nonstrict":      # a valid document reads the same without strictness (and logs nothing)
+        return C.Copyright(lines, strict=False)
+    if form == "crlf":
+        return C.Copyright([x[:-1] + "\r\n" if x.endswith("\n") else x for x in lines], strict=True)
+    raise core.MachineryError("unknown parse form %r" % form)
+
+
+def dump_doc(c, form):
+    if form in ("file", "file-pos"):
+        f = io.StringIO()
+        r = c.dump(f=f) if form == "file" else c.dump(f)
+        if r is not None:
+            raise TypeError("dump(f) returned %r" % type(r))
+        return f.getvalue()
+    if form == "disk" and _SCRATCH["dir"] is not None:
+        path = _scratch_file()
+        try:
+            with io.open(path, "w", encoding="utf-8", newline="\n") as f:
+                c.dump(f)
+            with io.open(path, "r", encoding="utf-8", newline="\n") as f:
+                return f.read()
+        finally:
+            if os.path.exists(path):
+                os.unlink(path)
+    return c.dump()
+
+
+HDR_KNOWN = ("format", "upstream-name", "upstream-contact", "license", "files-excluded", "files-included")
+HDR_ATTR = {"source": "source", "disclaimer": "disclaimer", "comment": "comment", "copyright": "copyright"}
+
+
+def _lic_parts(lic, vr):
+    """the two parts of a License namedtuple through attributes / indexes / unpacking"""
+    v = vr.choice(["attr", "attr", "index", "unpack"]) if vr is not None else "attr"
+    if v == "index":
+        return lic[0], lic[1]
+    if v == "unpack":
+        syn, text = lic
+        return syn, text
+    return lic.synopsis, lic.text
+
+
+def _extras(p, known, attrs):
+    """the other fields of a wrapper, through iteration + item access; a field that also has a
+    property must read the same through it"""
+    out = []
+    for k in p:
+        if k.lower() in known:
+            continue
+        v = p[k]
+        a = attrs.get(k.lower())
+        if a is not None and getattr(p, a) != v:
+            out.append(["getter-disagrees:" + k, repr(getattr(p, a))])
+        out.append([k, v])
+    return out
+
+
+def observe_doc(C, c, vr=None):
+    """projection of a Copyright object: (header dict, list of paragraph dicts); `vr` rotates the
+    query entry points (all_paragraphs / iteration / the two filtered iterators, License access)"""
     h = c.header
     hl = h.license
     hdr = {"format": h.format, "name": h.upstream_name, "uc": list(h.upstream_contact),
-           "lic": None if hl is None else [hl.synopsis, hl.text]}
+           "lic": None if hl is None else list(_lic_parts(hl, vr)),
+           "fe": list(h.files_excluded), "fi": list(h.files_included), "extra": _extras(h, HDR_KNOWN, HDR_ATTR)}
+    if not (h.known_format() and h.current_format()) or len(h) != len(list(h)):
+        hdr["format"] = "known_format/current_format/len disagree: %r" % (h.format,)
     ps = []
-    for p in list(c.all_paragraphs())[1:]:
+    allp = list(c.all_paragraphs())
+    viai = list(c) if vr is None or vr.random() < 0.5 else [x for x in iter(c)]
+    body = (viai if vr is not None and vr.random() < 0.5 else allp)[1:]
+    for p in body:
         if isinstance(p, C.FilesParagraph):
-            lic = p.license
-            ps.append({"kind": "Files", "pats": list(p.files), "copy": p.copyright,
-                       "syn": lic.synopsis, "text": lic.text})
+            syn, text = _lic_parts(p.license, vr)
+            ps.append({"kind": "Files", "pats": list(p.files), "copy": p.copyright, "syn": syn, "text": text,
+                       "extra": _extras(p, ("files", "copyright", "license"), {"comment": "comment"})})
         elif isinstance(p, C.LicenseParagraph):
-            lic = p.license
-            ps.append({"kind": "License", "pats": [], "copy": None, "syn": lic.synopsis, "text": lic.text})
+            syn, text = _lic_parts(p.license, vr)
+            ps.append({"kind": "License", "pats": [], "copy": None, "syn": syn, "text": text,
+                       "extra": _extras(p, ("license",), {"comment": "comment"})})
         else:
-            ps.append({"kind": type(p).__name__, "pats": [], "copy": None, "syn": None, "text": None})
-    nf = len(list(c.all_files_paragraphs()))
-    nl = len(list(c.all_license_paragraphs()))
-    if nf != sum(1 for p in ps if p["kind"] == "Files") or nl != sum(1 for p in ps if p["kind"] == "License"):
-        ps.append({"kind": "iterators-disagree", "pats": [], "copy": None, "syn": None, "text": None})
+            ps.append({"kind": type(p).__name__, "pats": [], "copy": None, "syn": None, "text": None, "extra": []})
+    fs = list(c.all_files_paragraphs())
+    ls = list(c.all_license_paragraphs())
+    same_objects = (len(allp) == len(viai) and all(x is y for x, y in zip(allp, viai)) and allp[:1] == [h]
+                    and [x for x in allp[1:] if isinstance(x, C.FilesParagraph)] == fs
+                    and [x for x in allp[1:] if isinstance(x, C.LicenseParagraph)] == ls)
+    if not same_objects:
+        ps.append({"kind": "iterators-disagree", "pats": [], "copy": None, "syn": None, "text": None, "extra": []})
     return hdr, ps
+
+
+def query_files(C, c, names):
+    """find_files_paragraph through the document: position of the answer (or the exception) per name"""
+    body = list(c.all_paragraphs())[1:]
+    out = []
+    for n in names:
+        try:
+            p = c.find_files_paragraph(n)
+            out.append(None if p is None else [i for i, q in enumerate(body) if q is p][0])
+        except Exception as e:
+            out.append(exc_name(e))
+    return out
 
 
 SCRIBBLE = [{"kind": "scribble"}]
@@ -475,17 +741,30 @@ def edited_doc(doc, edits):
     return doc
 
 
-def exec_doc(hdr, ops, start="api", form="lines", dumpform="str", edits=None):
+def query_names(ops):
+    """file names to ask find_files_paragraph about (the answers of the built and of the re-parsed
+    document must agree; which answer is right is property C16)"""
+    names = ["debian/copyright", "x"]
+    for op in ops[:4]:
+        for pat in op["pats"][:2]:
+            names.append(pat.replace("\\", "").replace("*", "x").replace("?", "y")[:60])
+    return names[:8]
+
+
+def exec_doc(hdr, ops, start="api", form="lines", dumpform="str", edits=None, vseed=None):
     """build -> dump -> strict re-parse -> dump; then change the re-parsed document (`edits`: a function
     from the observed paragraph order to a list of edits; None or a None result: scribble over
     everything), dump and strictly re-parse it again (only for real edits), and parse the FIRST dump
-    once more.
-    hdr = {"name": str|None, "uc": [str], "lic": [syn, text]|None}
-    ops = [{"kind": "Files"|"License", "pats": [...], "copy": str, "syn": str, "text": str}]"""
+    once more.  `vseed` rotates the API entry points used for every step (None: the primary ones);
+    `form` / `dumpform` are the input form of the first re-parse / the output form of the first dump.
+    hdr = {"name": str|None, "uc": [str], "lic": [syn, text]|None, "fe": [str], "fi": [str], "extra": [[key, value]]}
+    ops = [{"kind": "Files"|"License", "pats": [...], "copy": str, "syn": str, "text": str, "extra": [[key, value]]}]"""
     from debian import copyright as C
+    from debian import deb822
     _shared_reset(C)
+    vr = random.Random(vseed) if vseed is not None else None
     o = {"stage": "", "exc": "", "msg": "", "order": None, "dump": None, "warn": [], "format0": None,
-         "hdr": None, "paras": None, "dump2": None,
+         "hdr": None, "paras": None, "dump2": None, "find": None, "law": None, "alias": False,
          "edits": None, "hdr2": None, "paras2": None, "dump3": None, "dump4": None, "hdr3": None, "paras3": None,
          "_live": None}
     log = logging.getLogger("debian.copyright")
@@ -493,30 +772,31 @@ def exec_doc(hdr, ops, start="api", form="lines", dumpform="str", edits=None):
     old_prop = log.propagate
     log.addHandler(handler)
     log.propagate = False
-
-    def parse(text):
-        if form == "bytes":          # "encoding: Encoding to use, in case input is raw byte strings"
-            return C.Copyright(text.encode("utf-8").splitlines(True), encoding="utf-8", strict=True)
-        return C.Copyright(text.splitlines(True) if form == "lines" else io.StringIO(text), strict=True)
-
-    def dump(c):
-        if dumpform == "str":
-            return c.dump()
-        f = io.StringIO()
-        c.dump(f=f)
-        return f.getvalue()
+    form2 = vr.choice(PARSE_FORMS) if vr is not None else form
+    form3 = vr.choice(PARSE_FORMS) if vr is not None else form
+    dumpform3 = vr.choice(DUMP_FORMS) if vr is not None else dumpform
+    o["var"] = ["parse:" + form, "parse:" + form2, "parse:" + form3, "dump:" + dumpform, "dump:" + dumpform3,
+                "entry points rotated" if vr is not None else "primary entry points"]
     try:
         try:
             o["stage"] = "build"
             c = C.Copyright()
-            o["format0"] = c.header.format
+            h = c.header
+            o["format0"] = h.format
             if hdr.get("name") is not None:
-                c.header.upstream_name = hdr["name"]
+                h.upstream_name = hdr["name"]
             if hdr.get("uc"):
-                c.header.upstream_contact = list(hdr["uc"])
+                h.upstream_contact = list(hdr["uc"])
             if hdr.get("lic") is not None:
-                c.header.license = _mk_lic(C, hdr["lic"][0], hdr["lic"][1])
-            objs = [_mk_para(C, op) for op in ops]
+                h.license = _mk_lic(C, hdr["lic"][0], hdr["lic"][1], vr)
+            if hdr.get("fe"):
+                h.files_excluded = list(hdr["fe"])
+            if hdr.get("fi"):
+                h.files_included = tuple(hdr["fi"])
+            _set_extra(h, hdr.get("extra"), header=True)
+            if vr is not None and vr.random() < 0.3:     # a Header built over a Deb822 object, installed by the setter
+                c.header = C.Header(deb822.Deb822(_para_text(h, vr)))
+            objs = [_mk_para(C, op, vr) for op in ops]
             if start == "api":
                 for p in objs:
                     if isinstance(p, C.FilesParagraph):
@@ -526,22 +806,42 @@ def exec_doc(hdr, ops, start="api", form="lines", dumpform="str", edits=None):
                 body = [p for p in c.all_paragraphs()][1:]
                 o["order"] = [[i for i, q in enumerate(objs) if q is p][0] for p in body]
             else:
-                text = c.header.dump() + "".join("\n" + p.dump() for p in objs)
-                c = C.Copyright(text.splitlines(True), strict=True)
+                htext = _para_text(c.header, vr)
+                if vr is not None and vr.random() < 0.25 and htext.startswith("Format:"):
+                    htext = "Format-Specification:" + htext[len("Format:"):]     # deprecated field name: warned about, rewritten
+                    o["alias"] = True
+                text = htext + "".join("\n" + _para_text(p, vr) for p in objs)
+                c = parse_doc(C, text, vr.choice(PARSE_FORMS) if vr is not None else "lines")
                 o["order"] = list(range(len(objs)))
             o["stage"] = "dump"
-            d1 = dump(c)
+            d1 = dump_doc(c, dumpform)
             o["dump"] = d1
             if not isinstance(d1, str):
                 raise TypeError("dump() returned %r" % type(d1))
             o["stage"] = "load"
             del handler.msgs[:]
-            c2 = parse(d1)
+            c2 = parse_doc(C, d1, form)
             o["stage"] = "getters"
-            o["hdr"], o["paras"] = observe_doc(C, c2)
+            o["hdr"], o["paras"] = observe_doc(C, c2, vr)
             o["warn"] = list(handler.msgs)
             o["stage"] = "dump2"
             o["dump2"] = c2.dump()
+            # ---- secondary entry points, same objects: file queries, License <-> string
+            o["stage"] = "queries"
+            if vr is not None and vr.random() < 0.4:
+                names = query_names(ops)
+                q1, q2 = query_files(C, c, names), query_files(C, c2, names)
+                if q1 != q2:
+                    o["find"] = "find_files_paragraph%r answers %r on the document and %r on its re-parsed dump" % (tuple(names), q1, q2)
+            seen = 0
+            for syn, text in [(op["syn"], op["text"]) for op in ops] + ([tuple(hdr["lic"])] if hdr.get("lic") else []):
+                if seen >= 4 or o["law"]:
+                    break
+                seen += 1
+                lic = _mk_lic(C, syn, text, vr)
+                back = C.License.from_str(lic.to_str())
+                if tuple(back) != (syn, text) or not isinstance(back, C.License) or C.License.from_str(None) is not None:
+                    o["law"] = "License.from_str(License(%r, %r).to_str()) = %r" % (syn, text, back)
             # ---- second phase: nothing of the first round trip may leak into later calls
             o["stage"] = "edit"
             chosen = edits(o["order"]) if edits is not None else None
@@ -550,17 +850,17 @@ def exec_doc(hdr, ops, start="api", form="lines", dumpform="str", edits=None):
             o["edits"] = ed
             if chosen is not None:
                 o["stage"] = "dump3"
-                o["dump3"] = dump(c2)
+                o["dump3"] = dump_doc(c2, dumpform3)
                 o["stage"] = "load2"
-                c4 = parse(o["dump3"])
+                c4 = parse_doc(C, o["dump3"], form2)
                 o["stage"] = "getters2"
-                o["hdr2"], o["paras2"] = observe_doc(C, c4)
+                o["hdr2"], o["paras2"] = observe_doc(C, c4, vr)
                 o["stage"] = "dump4"
                 o["dump4"] = c4.dump()
             o["stage"] = "load3"
-            c3 = parse(d1)
+            c3 = parse_doc(C, d1, form3)
             o["stage"] = "getters3"
-            o["hdr3"], o["paras3"] = observe_doc(C, c3)
+            o["hdr3"], o["paras3"] = observe_doc(C, c3, vr)
             o["warn"] += list(handler.msgs[len(o["warn"]):])
             o["_live"] = (C, c3)
             o["stage"] = "done"
@@ -577,7 +877,7 @@ def exec_doc(hdr, ops, start="api", form="lines", dumpform="str", edits=None):
 
 STAGE = {"build": "building the document", "dump": "dump()",
          "load": "Copyright(<lines / file object / UTF-8 byte lines of dump()>, strict=True)", "getters": "reading the re-parsed paragraphs",
-         "dump2": "the second dump()", "edit": "changing the re-parsed document through its setters / add_*",
+         "dump2": "the second dump()", "queries": "find_files_paragraph / License.from_str(to_str())", "edit": "changing the re-parsed document through its setters / add_*",
          "dump3": "dump() of the changed document", "load2": "the strict re-parse of the changed document",
          "getters2": "reading the paragraphs of the changed and re-parsed document",
          "dump4": "dump() after the second re-parse", "load3": "parsing the first dump a second time",
@@ -598,6 +898,8 @@ def compare_doc(got_hdr, got, hdr, expected, format0, what):
             return "%s: paragraph %d: license synopsis %r, expected %r" % (what, i + 1, g["syn"], e["syn"])
         if g["text"] != e["text"]:
             return "%s: paragraph %d: license text %r, expected %r" % (what, i + 1, g["text"], e["text"])
+        if [list(x) for x in g.get("extra") or []] != [list(x) for x in e.get("extra") or []]:
+            return "%s: paragraph %d: other fields (comment ...) %r, expected %r" % (what, i + 1, g.get("extra"), e.get("extra"))
     h = got_hdr
     if h["format"] != format0:
         return "%s: header Format %r, was %r" % (what, h["format"], format0)
@@ -607,6 +909,11 @@ def compare_doc(got_hdr, got, hdr, expected, format0, what):
         return "%s: header Upstream-Contact %r, expected %r" % (what, h["uc"], hdr.get("uc"))
     if (h["lic"] is None) != (hdr.get("lic") is None) or (h["lic"] is not None and list(h["lic"]) != list(hdr["lic"])):
         return "%s: header License %r, expected %r" % (what, h["lic"], hdr.get("lic"))
+    for k, label in (("fe", "Files-Excluded"), ("fi", "Files-Included")):
+        if list(h.get(k) or []) != list(hdr.get(k) or []):
+            return "%s: header %s %r, expected %r" % (what, label, h.get(k), hdr.get(k))
+    if [list(x) for x in h.get("extra") or []] != [list(x) for x in hdr.get("extra") or []]:
+        return "%s: other header fields %r, expected %r" % (what, h.get("extra"), hdr.get("extra"))
     return None
 
 
@@ -614,7 +921,7 @@ def judge_doc(o, hdr, expected, expected2=None):
     """verdict observables of one execution against the expected document (list of paragraphs in
     the expected order, same form as ops) and, when the re-parsed document was edited, against the
     expected edited document; returns None or a message"""
-    done = ["build", "dump", "load", "getters", "dump2", "edit", "dump3", "load2", "getters2", "dump4", "load3",
+    done = ["build", "dump", "load", "getters", "dump2", "queries", "edit", "dump3", "load2", "getters2", "dump4", "load3",
             "getters3", "done"]
     first_ok = not o["exc"] or done.index(o["stage"]) > done.index("dump2")
     if not first_ok:
@@ -626,6 +933,8 @@ def judge_doc(o, hdr, expected, expected2=None):
         return msg
     if o["dump2"] != o["dump"]:
         return "second dump() differs from the first: %r vs %r" % (o["dump2"][:400], o["dump"][:400])
+    if o["find"] or o["law"]:
+        return o["find"] or o["law"]
     if o["exc"]:
         return "%s raised %s: %s" % (STAGE.get(o["stage"], o["stage"]), o["exc"], o["msg"])
     if expected2 is not None:
@@ -733,7 +1042,7 @@ def codec_concretize(case, conc):
 def check_codec_case(case, conc, diag=None):
     """returns (violation message or None, lines)"""
     lines = codec_concretize(case, conc)
-    o = exec_codec(lines)
+    o = exec_codec(lines, None if conc.canonical else conc.rng)
     exp_out = codec_render(case["out"], case["inp"], lines, conc)
     if case["dom"]:
         if case["out"] != case["inp"]:
@@ -747,6 +1056,9 @@ def check_codec_case(case, conc, diag=None):
                     "returned by the first call, gives %r / %r" % (lines, o["out2"], o["out3"])), lines
         if not o["kept"]:
             return "format_multiline_lines changed its argument %r or gave another text the second time" % (lines,), lines
+        if case.get("sdom") and (o["sout"] != "\n".join(lines) or not o["ssame"]):
+            return ("parse_multiline(format_multiline(%r)) = %r (string variants; format_multiline agrees with "
+                    "format_multiline_lines: %r)" % ("\n".join(lines), o["sout"], o["ssame"])), lines
     elif diag is not None:
         if o["exc"] or o["out"] != exp_out:
             diag.append("codec normal form outside the condition: %r -> %r, specification predicts %r" % (
@@ -763,14 +1075,18 @@ def doc_concretize(case, conc):
     def para(p, k):
         return {"kind": p["k"], "pats": conc.pats(p["p"]),
                 "copy": conc.text(p["c"], "c%d" % k) if p["k"] == "Files" else None,
-                "syn": conc.line(p["l"]["s"], "s%d" % k), "text": conc.text(p["l"]["t"], "t%d" % k)}
+                "syn": conc.line(p["l"]["s"], "s%d" % k), "text": conc.text(p["l"]["t"], "t%d" % k),
+                "extra": [[f["k"], conc.text(f["v"], "x%d%s" % (k, f["k"]))] for f in p.get("x", [])]}
 
     def kof(p):
         return p["l"]["s"][1] // 1000
     h = case["hdr"]
     hdr = {"name": conc.text(h["n"][0], "hn") if h["n"] else None,
            "uc": [" ".join(conc.body(c) for c in e) for e in h["u"]],
-           "lic": [conc.line(h["l"][0]["s"], "hs"), conc.text(h["l"][0]["t"], "ht")] if h["l"] else None}
+           "lic": [conc.line(h["l"][0]["s"], "hs"), conc.text(h["l"][0]["t"], "ht")] if h["l"] else None,
+           "fe": [" ".join(conc.body(c) for c in e) for e in h.get("fe", [])],
+           "fi": [" ".join(conc.body(c) for c in e) for e in h.get("fi", [])],
+           "extra": [[f["k"], conc.text(f["v"], "hx" + f["k"])] for f in h.get("x", [])]}
     ops = [para(p, kof(p)) for p in case["ops"]]
     doc = [para(p, kof(p)) for p in case["doc"]]
     if not case.get("edit"):
@@ -792,7 +1108,7 @@ def doc_concretize(case, conc):
     return hdr, ops, doc, pre, [ce]
 
 
-def check_doc_case(case, conc, form="lines", dumpform="str", diag=None):
+def check_doc_case(case, conc, form="lines", dumpform="str", diag=None, vseed=None):
     """returns (message or None, observation)"""
     hdr, ops, doc, pre, edits = doc_concretize(case, conc)
     first = doc if pre is None else pre
@@ -800,7 +1116,7 @@ def check_doc_case(case, conc, form="lines", dumpform="str", diag=None):
     def choose(order):
         # TLC's edit refers to TLC's paragraph order
         return edits if edits is not None and [ops[i] for i in order] == first else None
-    o = exec_doc(hdr, ops, "api", form, dumpform, choose)
+    o = exec_doc(hdr, ops, "api", form, dumpform, choose, vseed)
     expected2 = None
     if edits is not None and o["edits"] is not None and o["edits"] != SCRIBBLE:
         expected2 = doc
@@ -844,10 +1160,12 @@ def _doc_run(case, crc, seed, k, diag=None, nconc=None):
     """one execution of a document CASE: concretization k of the run's seed"""
     rng = random.Random("%s-%d-%d" % (seed, crc, k))
     conc = Conc(rng, canonical=(k == 0), stress=(nconc is not None and k == nconc))
-    form = "lines" if k == 0 else rng.choice(["lines", "lines", "file", "bytes"])
-    dumpform = "str" if k == 0 else rng.choice(["str", "str", "file"])
-    msg, o = check_doc_case(case, conc, form, dumpform, diag)
-    return msg, o, {"kind": "doc", "case": case, "conc": conc.c, "form": form, "dumpform": dumpform, "crc": crc, "k": k}
+    form = "lines" if k == 0 else rng.choice(PARSE_FORMS)
+    dumpform = "str" if k == 0 else rng.choice(DUMP_FORMS)
+    vseed = None if k == 0 else rng.getrandbits(30)
+    msg, o = check_doc_case(case, conc, form, dumpform, diag, vseed)
+    return msg, o, {"kind": "doc", "case": case, "conc": conc.c, "form": form, "dumpform": dumpform, "vseed": vseed,
+                    "crc": crc, "k": k}
 
 
 _PROC_HIST = []       # [kind, nconc, CASE line] of everything this (pool) process has executed, in order
@@ -906,6 +1224,8 @@ def _worker(args):
                     stats["add_" + p["k"]] = stats.get("add_" + p["k"], 0) + 1
                 if k == nconc:
                     stats["size_stressed_documents"] = stats.get("size_stressed_documents", 0) + 1
+                for v in o["var"]:
+                    stats[v] = stats.get(v, 0) + 1
                 if case.get("edit"):
                     ek = "edit_" + case["edit"][0]["kind"]
                     stats[ek] = stats.get(ek, 0) + 1
@@ -1069,8 +1389,20 @@ def random_doc(rng):
             tl = op["text"].split("\n")
             tl[rng.randrange(len(tl))] = op["syn"]
             op["text"] = "\n".join(tl)
+    # other fields: comment of a paragraph; Source / Disclaimer / Comment / Copyright / custom fields and the
+    # line-based Files-Excluded / Files-Included of the header
+    for op in ops:
+        if rng.random() < 0.2:
+            op["extra"] = [["Comment", random_copy(rng)]] + ([["X-Origin", spice(rng, rng.choice(SOURCE_POOL))]] if rng.random() < 0.3 else [])
+    if rng.random() < 0.3:
+        hdr["fe"] = [spice(rng, rng.choice(PAT_POOL)) for _ in range(rng.choice([1, 2, 3]))]
+    if rng.random() < 0.2:
+        hdr["fi"] = [spice(rng, rng.choice(PAT_POOL)) for _ in range(rng.choice([1, 2]))]
+    if rng.random() < 0.4:
+        pick = [k for k in ("Source", "Disclaimer", "Comment", "Copyright", "X-Custom") if rng.random() < 0.5]
+        hdr["extra"] = [[k, spice(rng, rng.choice(SOURCE_POOL)) if k in ("Source", "X-Custom") else random_copy(rng)] for k in pick]
     start = "api" if rng.random() < 0.6 else "parsed"
-    return hdr, ops, start, rng.choice(["lines", "lines", "file", "bytes"]), rng.choice(["str", "str", "file"])
+    return hdr, ops, start, rng.choice(PARSE_FORMS), rng.choice(DUMP_FORMS)
 
 
 # ---- size-stressed documents and line lists (notes/SIZE_STRESS.md)
@@ -1115,7 +1447,7 @@ def size_suite(rng, thorough):
     docs = []
 
     def add(hdr, ops, start="api", reqs=()):
-        docs.append((hdr, ops, start, rng.choice(["lines", "file", "bytes"]), rng.choice(["str", "file"]), list(reqs)))
+        docs.append((hdr, ops, start, rng.choice(PARSE_FORMS), rng.choice(DUMP_FORMS), list(reqs)))
     # many patterns; joined length of the list at 72 / 80 / 256 / 4096
     add(H0, [files_para(rng, [sized_pattern(rng, rng.choice([3, 8, 17])) for _ in range(200)]),
              files_para(rng, [sized_pattern(rng, rng.choice([2, 9])) for _ in range(101)])],
@@ -1220,23 +1552,30 @@ def abs_pat(p, it):
     return -1 if p == "." else it(p)
 
 
+def abs_extra(extra, it):
+    return [{"k": k, "v": abs_str(v, it)} for k, v in (extra or [])]
+
+
 def abs_para(p, it):
     return {"kind": p["kind"], "pats": [abs_pat(x, it) for x in p["pats"]],
             "copy": abs_str(p["copy"], it) if p["kind"] == "Files" and p["copy"] is not None else [],
-            "lic": abs_lic(p["syn"], p["text"], it)}
+            "lic": abs_lic(p["syn"], p["text"], it), "extra": abs_extra(p.get("extra"), it)}
 
 
 def abs_hdr(h, it):
     return {"name": [abs_str(h["name"], it)] if h.get("name") is not None else [],
             "uc": [abs_words(abs_line(e, it)) for e in (h.get("uc") or [])],
-            "lic": [abs_lic(h["lic"][0], h["lic"][1], it)] if h.get("lic") is not None else []}
+            "lic": [abs_lic(h["lic"][0], h["lic"][1], it)] if h.get("lic") is not None else [],
+            "fe": [abs_words(abs_line(e, it)) for e in (h.get("fe") or [])],
+            "fi": [abs_words(abs_line(e, it)) for e in (h.get("fi") or [])],
+            "extra": abs_extra(h.get("extra"), it)}
 
 
-FAILED_HDR = {"name": [], "uc": [], "lic": []}
+FAILED_HDR = {"name": [], "uc": [], "lic": [], "fe": [], "fi": [], "extra": []}
 
 
 NO_LIC = {"syn": {"ind": 0, "b": "none", "id": []}, "text": [{"ind": 0, "b": "none", "id": []}]}
-NO_PARA = {"kind": "none", "pats": [], "copy": [], "lic": NO_LIC}
+NO_PARA = {"kind": "none", "pats": [], "copy": [], "lic": NO_LIC, "extra": []}
 
 
 def random_edit_requests(rng):
@@ -1302,19 +1641,22 @@ def abs_load(o, hkey, pkey, it, ok):
     bad = [p for p in o[pkey] if p["kind"] not in ("Files", "License")]
     if bad or not isinstance(h["format"], str) or h["format"] != o["format0"]:
         return {"err": "bad-paragraph-or-format", "hdr": FAILED_HDR, "paras": []}
-    return {"err": "none", "hdr": abs_hdr({"name": h["name"], "uc": h["uc"], "lic": h["lic"]}, it),
+    return {"err": "none", "hdr": abs_hdr(h, it),
             "paras": [abs_para(p, it) for p in o[pkey]]}
 
 
-def record_doc(hdr, ops, start, form, dumpform, reqs=()):
+def record_doc(hdr, ops, start, form, dumpform, reqs=(), vseed=None):
     """execute and abstract one document execution; returns (trace, observation)"""
     from debian import copyright as C
-    o = exec_doc(hdr, ops, start, form, dumpform, lambda order: resolve_edits(reqs, ops, order))
+    o = exec_doc(hdr, ops, start, form, dumpform, lambda order: resolve_edits(reqs, ops, order), vseed)
     it = Interner(o["format0"] if isinstance(o["format0"], str) else getattr(C, "_CURRENT_FORMAT", "format"))
     tr = {"kind": "doc", "start": start, "hdr": abs_hdr(hdr, it), "ops": [abs_para(p, it) for p in ops],
           "order": [i + 1 for i in (o["order"] if o["order"] is not None else range(len(ops)))],
           "dump": abs_dump(o["dump"], it) if isinstance(o["dump"], str) else [],
-          "warn": len(o["warn"]), "same": bool(o["dump2"] is not None and o["dump2"] == o["dump"])}
+          "warn": len(o["warn"]), "fmtlast": bool(o["alias"]),
+          # Stable: the second dump is the first one; the re-parsed document also answers file queries like the
+          # document it came from and its licenses survive License.from_str(to_str())
+          "same": bool(o["dump2"] is not None and o["dump2"] == o["dump"] and not o["find"] and not o["law"])}
     if o["exc"] and o["stage"] in ("load", "getters"):
         tr["load"] = {"err": o["exc"], "hdr": FAILED_HDR, "paras": []}
     else:
@@ -1327,8 +1669,8 @@ def record_doc(hdr, ops, start, form, dumpform, reqs=()):
     return tr, o
 
 
-def record_codec(lines):
-    o = exec_codec(lines)
+def record_codec(lines, vr=None):
+    o = exec_codec(lines, vr)
     it = Interner("format")
 
     def al(x):
@@ -1336,8 +1678,44 @@ def record_codec(lines):
     tr = {"kind": "codec", "ls": [abs_line(x, it) for x in lines],
           "enc": abs_str(o["enc"], it) if isinstance(o["enc"], str) else [],
           "out": al(o["out"]), "out2": al(o["out2"]), "out3": al(o["out3"]), "kept": bool(o["kept"]),
+          "sout": abs_str(o["sout"], it) if isinstance(o["sout"], str) else [], "ssame": bool(o["ssame"]),
           "exc": o["exc"]}
     return tr, o
+
+
+REJECT_FORMS = [f for f in PARSE_FORMS if f not in ("nonstrict", "latin1")]
+
+
+def record_reject(rng, text):
+    """a text that is not a valid machine-readable copyright file, through EVERY strict input form of
+    Copyright(): all forms must raise the same exception (TLC: the one Load gives for the text)"""
+    from debian import copyright as C
+    errs = {}
+    for form in REJECT_FORMS:
+        try:
+            parse_doc(C, text, form)
+            errs[form] = "none"
+        except Exception as e:
+            errs[form] = exc_name(e)
+    kinds = sorted(set(errs.values()))
+    it = Interner(getattr(C.Copyright().header, "format", "format"))
+    tr = {"kind": "reject", "dump": abs_dump(text, it),
+          "err": kinds[0] if len(kinds) == 1 else "input forms disagree: %r" % (errs,)}
+    return tr, errs
+
+
+def reject_texts(rng):
+    from debian import copyright as C
+    hdr, ops, _, _, _ = random_doc(rng)
+    o = exec_doc(hdr, ops or [small_para(rng, "Files")], "api")
+    d = o["dump"] or "Format: x\n"
+    body = d.split("\n\n", 1)[1] if "\n\n" in d else "License: MIT\n"
+    return ["", "\n", "\n\n \n", body,                                  # nothing / no header paragraph with Format
+            "Upstream-Name: x\n\n" + body,
+            d + "\nComment: neither Files nor License\n",               # a paragraph that is neither kind
+            d + "\nFiles: *\nLicense: MIT\n",                           # Files paragraph without Copyright
+            d + "\nFiles: *\nCopyright: 2014 X\n",                      # ... without License
+            d + "\nFiles:\nCopyright: 2014 X\nLicense: MIT\n"]          # ... with an empty list
 
 
 def random_lines(rng, in_domain):
@@ -1492,7 +1870,7 @@ def run_traces(ctx, quick, pool=None):
     """records the executions, has them validated by TLC (in a thread of `pool` when given) and returns
     the function that judges the result (to be called after the replay leg, which runs meanwhile)"""
     rng = ctx.rng
-    ndoc, ncodec = (400, 800) if quick else (6000, 20000)
+    ndoc, ncodec = (350, 700) if quick else (4000, 12000)
     traces, metas = [], []
     kinds = {"Files": 0, "License": 0, "api": 0, "parsed": 0}
     nedits = {}
@@ -1511,9 +1889,11 @@ def run_traces(ctx, quick, pool=None):
         else:
             hdr, ops, start, form, dumpform = random_doc(rng)
             reqs = random_edit_requests(rng)
-        tr, o = record_doc(hdr, ops, start, form, dumpform, reqs)
+        vseed = rng.getrandbits(30) if rng.random() < 0.75 else None
+        tr, o = record_doc(hdr, ops, start, form, dumpform, reqs, vseed)
         traces.append(tr)
-        me = {"kind": "trace-doc", "hdr": hdr, "ops": ops, "start": start, "form": form, "dumpform": dumpform, "reqs": reqs}
+        me = {"kind": "trace-doc", "hdr": hdr, "ops": ops, "start": start, "form": form, "dumpform": dumpform, "reqs": reqs,
+              "vseed": vseed}
         metas.append(("doc", hdr, ops, start, form, dumpform, o, me))
         if prev is not None:
             msg = prev.recheck()            # the objects of the previous document must not have changed
@@ -1522,23 +1902,32 @@ def run_traces(ctx, quick, pool=None):
         prev = Live(o) if o["_live"] is not None else None
         o["_live"] = None
         kinds[start] += 1
+        for v in o["var"]:
+            nedits["(api) " + v] = nedits.get("(api) " + v, 0) + 1
         for p in ops:
             kinds[p["kind"]] += 1
         for e in tr["edits"]:
             nedits[e["kind"]] = nedits.get(e["kind"], 0) + 1
     prev = None
+    nreject = 0
+    for text in reject_texts(rng):
+        tr, errs = record_reject(rng, text)
+        traces.append(tr)
+        metas.append(("reject", text, errs))
+        nreject += 1
     for i in range(ncodec):
         dom = i % 5 != 0
         lines = csuite[i] if i < len(csuite) else random_lines(rng, dom)
         dom = dom or i < len(csuite)
-        tr, o = record_codec(lines)
+        tr, o = record_codec(lines, rng)
         tr["_dom"] = dom
         traces.append(tr)
         metas.append(("codec", lines, o))
     fut = pool.submit(validate, ctx, traces) if pool is not None else None
+    ctx.extra.setdefault("per_action_counts", {})["trace_rejected_inputs_x_forms"] = nreject * len(REJECT_FORMS)
 
     def finish():
-        _finish_traces(ctx, traces, metas, ndoc, ncodec, kinds, nedits, leaks, suite, csuite, nstress,
+        _finish_traces(ctx, traces, metas, ndoc + nreject, ncodec, kinds, nedits, leaks, suite, csuite, nstress,
                        fut.result() if fut is not None else validate(ctx, traces))
     return finish
 
@@ -1575,11 +1964,16 @@ def _finish_traces(ctx, traces, metas, ndoc, ncodec, kinds, nedits, leaks, suite
                     tid, w, repr(m[1])[:200] if m[0] == "codec" else repr(m[6]["dump"])[:300]))
     ctx.extra["diagnostic_notes"] = sum(len(v) for v in notes.values())
     # one document trace and one codec trace are filed (the replay leg files its own cases)
-    filed = [i for i in rejected if metas[i - 1][0] == "doc"][:1] + [i for i in rejected if metas[i - 1][0] == "codec"][:1]
+    filed = ([i for i in rejected if metas[i - 1][0] == "doc"][:1] + [i for i in rejected if metas[i - 1][0] == "codec"][:1]
+             + [i for i in rejected if metas[i - 1][0] == "reject"][:1])
     for i in filed:
         m = metas[i - 1]
         at = info.get(i, 0)
-        if m[0] == "codec":
+        if m[0] == "reject":
+            ctx.violation({"kind": "trace-reject", "text": m[1]},
+                          "Copyright(<%r>, strict=True) through its input forms: %r -- not what the specification's Load gives for this text"
+                          % (m[1][:300], m[2]))
+        elif m[0] == "codec":
             ctx.violation({"kind": "trace-codec", "lines": m[1]},
                           "parse_multiline_as_lines(format_multiline_lines(%r)) = %r, second call %r / %r%s, not explained by the specification (CodecLaw: the original lines, every time)"
                           % (m[1], m[2]["out"], m[2]["out2"], m[2]["out3"], (" raised " + m[2]["exc"]) if m[2]["exc"] else ""))
@@ -1669,11 +2063,12 @@ def run(ctx):
         "diagnostic only (spec drift, never an alarm): encoded form, normal form outside the statement's condition, layout of dump(), insertion position of add_files_paragraph, the specification's reader on the dumped lines",
         "trusted: TLC, the concretizer, the independent line classifier (abs_line), the projections files/copyright/license/dump()",
     ]
-    procs = 4 if quick else 8
+    procs = 6 if quick else 8
     # quick: one control per switch; thorough: all five and the all-off runs
     negs = [NEG_CONTROLS[1], NEG_CONTROLS[2], NEG_CONTROLS[5], NEG_CONTROLS[6], NEG_CONTROLS[7]] if quick else NEG_CONTROLS
     import multiprocessing
     # the replay processes are forked before any thread exists
+    _SCRATCH["dir"] = ctx.work               # (before the fork: the pool processes use it too)
     mp_pool = multiprocessing.get_context("fork").Pool(procs)
     try:
         _run(ctx, quick, cfg_codec, cfg_doc, negs, mp_pool, procs)
@@ -1714,7 +2109,7 @@ def _run(ctx, quick, cfg_codec, cfg_doc, negs, mp_pool, procs):
 
 def _rerun_trace_doc(case):
     return record_doc(case["hdr"], case["ops"], case["start"], case.get("form", "lines"), case.get("dumpform", "str"),
-                      case.get("reqs", ()))
+                      case.get("reqs", ()), case.get("vseed"))
 
 
 def _replay_doc_sequence(case):
@@ -1739,6 +2134,7 @@ def _replay_doc_sequence(case):
 
 def replay(ctx, case):
     k = case["kind"]
+    _SCRATCH["dir"] = ctx.work
     if k == "codec":
         msg, _ = check_codec_case(case["case"], Conc(random.Random(0), choices=case["conc"]))
         return msg
@@ -1746,6 +2142,10 @@ def replay(ctx, case):
         return _replay_doc_sequence(case)[0]
     if k == "doc-pair":
         return _replay_doc_sequence(case)[1]
+    if k == "trace-reject":
+        tr, errs = record_reject(random.Random(0), case["text"])
+        rejected, _, _, _ = validate(ctx, [tr], with_controls=False)
+        return ("Copyright(<%r>, strict=True) through its input forms: %r" % (case["text"][:300], errs)) if rejected else None
     if k == "trace-codec":
         tr, o = record_codec(case["lines"])
         rejected, _, _, _ = validate(ctx, [tr], with_controls=False)
